@@ -206,6 +206,60 @@ func familyVerdict(has map[string]bool) (bool, []string) {
 	return len(missing) == 0, missing
 }
 
+// callersDispatchFamily: v is a kind parameter of the unexported function fn, every use of fn is a call, and
+// at every call the kind handed in was found - on every path - to be one of a set of numeric kinds that,
+// together with the kinds fn names itself, makes up whole families: fn's default arm sees nothing else.
+func callersDispatchFamily(p *an.Prog, fn *ssa.Function, v ssa.Value, has map[string]bool) bool {
+	par, ok := v.(*ssa.Parameter)
+	if !ok || par.Parent() != fn {
+		return false
+	}
+	idx := -1
+	for i, pp := range fn.Params {
+		if pp == par {
+			idx = i
+		}
+	}
+	sites, only := onlyCalled(p, fn)
+	if !only || idx < 0 || len(sites) == 0 {
+		return false
+	}
+	all := map[string]bool{}
+	for k := range has {
+		all[k] = true
+	}
+	for _, s := range sites {
+		if idx >= len(s.Call.Args) {
+			return false
+		}
+		arg := s.Call.Args[idx]
+		seen := map[int64]bool{}
+		guarded := an.AllPathsGuarded(s.Block(), func(cond ssa.Value, taken bool) bool {
+			kv, in, known := kindTestOnEdge(p, cond, taken)
+			if !known || !(sameTypeExpr(kv, arg) || sameValue(kv, arg)) || len(in) == 0 {
+				return false
+			}
+			for k := range in {
+				if _, numeric := kindNames[k]; !numeric {
+					return false
+				}
+			}
+			for k := range in {
+				seen[k] = true
+			}
+			return true
+		})
+		if !guarded {
+			return false
+		}
+		for k := range seen {
+			all[kindNames[k]] = true
+		}
+	}
+	okFam, _ := familyVerdict(all)
+	return okFam
+}
+
 func runX2(p *an.Prog, r *an.Result) {
 	roles := GetRoles(p)
 	basicName := map[types.BasicKind]string{
@@ -287,6 +341,8 @@ func runX2(p *an.Prog, r *an.Result) {
 			} else if outer := enclosingCompleteDispatch(v, firstCmp[v], kindSw); outer != nil {
 				r.OK(name, construct, pos, "a nested dispatch inside an arm of a dispatch on the same kind that lists the whole family: its default arm stays within the family")
 				_ = missing
+			} else if kind == "kind switch" && callersDispatchFamily(p, fn, v, has) {
+				r.OK(name, construct, pos, "a helper reached only under a dispatch on the same kind that lists the whole family: its default arm stays within the family")
 			} else {
 				r.Bad(name, construct, pos, fmt.Sprintf("%s dispatches on %s but not on %s: values of the missing widths take another path, so equal numbers of different widths behave differently", an.FuncName(fn), strings.Join(names, ", "), strings.Join(missing, ", ")))
 			}
